@@ -129,4 +129,26 @@ theorem mergeModel_wf {α} (segs : List (Segment α))
     rw [h, List.length_replicate, hn, postingsOk_iff]
     exact ⟨livePostings_pairwise _ _ (concatPostings_ok k segs 0 hpost).1, livePostings_bound _ _⟩
 
+theorem flatten_groups {α β} (f : α → List β) (groups : List (List α)) :
+    (groups.map fun g => (g.map f).flatten).flatten = (groups.flatten.map f).flatten := by
+  induction groups with
+  | nil => rfl
+  | cons g rest ih => simp [ih]
+
+/-- per-document data of the spec: the live documents of the sources in source order -/
+theorem mergeSpec_docs {α} (segs : List (Segment α))
+    (hlen : ∀ s ∈ segs, s.docs.length = s.alive.length) :
+    (mergeSpec segs).docs = (segs.map fun s => liveDocs s.docs s.alive).flatten := by
+  show liveDocs (segs.map (·.docs)).flatten (segs.map (·.alive)).flatten = _
+  exact liveDocs_flatten segs hlen
+
+/-- the merged segment holds all its documents alive -/
+theorem mergeModel_liveDocs {α} (segs : List (Segment α))
+    (hlen : ∀ s ∈ segs, s.docs.length = s.alive.length) :
+    liveDocs (mergeModel segs).docs (mergeModel segs).alive
+      = (segs.map fun s => liveDocs s.docs s.alive).flatten := by
+  have h := mergeModel_docs segs hlen
+  rw [mergeSpec_docs segs hlen] at h
+  exact h
+
 end TantivyModel.Merge
